@@ -334,7 +334,9 @@ def gen_case(rng, kind):
                 # "whatever X contains": rests and default-length changes inside the chord move the pointer but not the law
                 items.append(rng.choice(["r", "r8", "r2", "r%7", "r4."]))
             else:
-                items.append(rng.choice("cdefgab") + rng.choice(["", "", "+", "-", "#"]) + rng.choice(["", "", "", "8", "2", "%5"]))
+                # (a tie mark on a note INSIDE a chord does not take the note out of the chord)
+                items.append(rng.choice("cdefgab") + rng.choice(["", "", "+", "-", "#"]) + rng.choice(["", "", "", "8", "2", "%5"])
+                             + rng.choice(["", "", "", "", "", "&"]))
                 n += 1
         if n == 0:
             items.append("c")
